@@ -108,6 +108,7 @@ func Dump(ctx context.Context, db graph.Database, driverName string, targets []G
 		if err := prepareOutputDirectory(options.OutputDir, options.Force); err != nil {
 			return DumpResult{}, err
 		}
+		verifCrashPoint("outdir.prepared")
 		nextManifest := newManifest(driverName, options.Compression, options.ZstdLevel, scrubInfo, len(targets))
 		nextMetrics := newMetricsManifest(len(targets))
 		nextManifest.Metrics = &nextMetrics
